@@ -62,16 +62,14 @@ let () =
       else begin
         (* monitors on the Go observations *)
         let singles = List.map2 single_verdict offers fresh in
-        (* an offer a new negotiator declines although the configuration (which is the answer the negotiator gives,
-           Negotiate.fresh of the model) is a legal answer to it: an acceptable offer is passed over *)
+        (* an offer a new negotiator declines although it is acceptable in the sense of NegotiateSpec.acceptable (the
+           configuration and the meaning of the parameter list alone; theorem C14_accepts_iff_acceptable) *)
         let declined_acceptable = List.exists2 (fun (name, ps) (f, _) ->
-          f = AEmpty && (match Negotiate.fresh cfg (name, ps) with
-                         | AOpt _ as y -> single_verdict (name, ps) (y, None) = None
-                         | _ -> false)) offers fresh in
+          f = AEmpty && name = ext_name && NegotiateSpec.acceptable cfg ps) offers fresh in
         match first_some singles with
         | Some msg -> Viol msg
         | None when declined_acceptable ->
-          Viol "an acceptable offer is declined (the server's configuration is a legal answer to it): not the first acceptable offer is answered"
+          Viol "an acceptable offer is declined (well-formed, and the configuration meets its server window, client window and no-context-takeover requests): not the first acceptable offer is answered"
         | None ->
           let bad_name = List.exists (fun (_, n) -> match n with Some n -> n <> ext_name | None -> false) answers in
           let rec steps ops ans fr = match ops with
